@@ -270,3 +270,20 @@ Lemma word_bytes a b c d :
   let w := a + 256 * b + 65536 * c + 16777216 * d in
   w mod 256 = a /\ (w / 256) mod 256 = b /\ (w / 65536) mod 256 = c /\ (w / 16777216) mod 256 = d.
 Proof. intros Ha Hb Hc Hd w. subst w. repeat split; lia. Qed.
+
+(* ------------------------------------------------------------ text-mode reading *)
+Lemma univ_nl_id l : contains 13 l = false -> univ_nl l = l.
+Proof.
+  induction l as [|c l IH]; intros H; [reflexivity|].
+  rewrite contains_cons in H. apply orb_false_iff in H as [Hc Hl].
+  cbn [univ_nl]. rewrite Z.eqb_sym, Hc. now rewrite IH.
+Qed.
+Lemma text_safe_parts l : text_safe l = true -> contains 13 l = false /\ str_safe l = true.
+Proof. unfold text_safe. intros H. apply andb_true_iff in H as [H1 H2]. now apply negb_true_iff in H1. Qed.
+Lemma forallb_map {A B} (f : B -> bool) (g : A -> B) l : forallb f (map g l) = forallb (fun x => f (g x)) l.
+Proof. induction l as [|x l IH]; [reflexivity|]. cbn [map forallb]. now rewrite IH. Qed.
+Lemma firstn_app_minus {A} (a b : list A) : firstn (length (a ++ b) - length b) (a ++ b) = a.
+Proof.
+  rewrite app_length. replace (length a + length b - length b)%nat with (length a) by lia.
+  rewrite firstn_app, Nat.sub_diag, firstn_all. cbn [firstn]. apply app_nil_r.
+Qed.
